@@ -8,7 +8,7 @@ from concurrent.futures import ThreadPoolExecutor
 
 VERIF = os.path.dirname(os.path.dirname(os.path.abspath(__file__)))
 REPO = os.environ.get("H3_REPO", "/repo")
-WORK = os.path.join(VERIF, ".work")
+WORK = os.path.join(VERIF, ".work") if REPO == "/repo" else os.path.join(VERIF, ".work", "alt-" + hashlib.sha1(REPO.encode()).hexdigest()[:8])
 CLANG = "clang-14" if shutil.which("clang-14") else "clang"
 LLVM_LINK = "llvm-link-14"
 OPT = "opt-14"
